@@ -5,6 +5,7 @@ import JaxVerif.Spec.Calls
 import JaxVerif.Generated.Skeleton
 import JaxVerif.Lemmas.Stack
 import JaxVerif.Source.Wrappers
+import JaxVerif.Source.Storage
 
 namespace JV
 
@@ -88,5 +89,20 @@ theorem C05_source_pop_whatever (mf : Option Exc) (k : FnKind) (sk : Skel) (ps :
       = some (callStep sk goodWrap (match k with | .plain => .noChecker | .typechecked => .oldStyle) ps ret bindOk noTc B e st).1 ∧
     (runCtx Generated.ctxEnterCode Generated.ctxExitCode mf B e st).map Prod.fst = some (ctxStep goodWrap B e st).1 :=
   ⟨source_new_wrapper_faults .., source_old_wrapper_faults .., source_context_faults ..⟩
+
+/-- `get_shape_memo` / `set_shape_memo` / `push_shape_memo` / `pop_shape_memo` of jaxtyping/_storage.py, translated from
+    the source read today (harness/translate_storage.py), are the stack operations the theorems above are about, for every
+    content of the thread's cell: a push adds exactly one frame, a pop removes exactly the top one, reading and writing
+    never change the depth (Source/Storage.lean) -/
+theorem C05_source_storage (ctx : SCtx) (st : TState) (cell : Option (List Memo)) (h : st.stack = cell.getD []) :
+    (∃ src, runStorageFn Generated.storageFuns ctx Generated.getShapeMemoCode cell = some (cell, .frame src) ∧
+            resolve ctx (topMemo st) src = topMemo st) ∧
+    ((runStorageFn Generated.storageFuns ctx Generated.setShapeMemoCode cell).map (fun r => r.1.getD [])
+        = some (match st.stack with | [] => [] | _ :: r => ctx.M :: r)) ∧
+    ((runStorageFn Generated.storageFuns ctx Generated.pushShapeMemoCode cell).map (fun r => r.1.getD [])
+        = some ({ args := ctx.A } :: st.stack)) ∧
+    (st.stack ≠ [] → (runStorageFn Generated.storageFuns ctx Generated.popShapeMemoCode cell).map (fun r => r.1.getD [])
+        = some (popStack st).stack) :=
+  source_storage_model ctx st cell h
 
 end JV
